@@ -159,7 +159,7 @@ func guardsOfRaw(fn *ssa.Function, derived bool) []guard {
 		// `a && cmp` / `a || cmp` evaluated as a value (switch cases, assigned conditions): a phi of
 		// boolean constants and one comparison. The comparison is a conjunct (all other edges false)
 		// or a disjunct (all other edges true) of the condition.
-		if ph, isPhi := cond.(*ssa.Phi); isPhi && derived && !neg {
+		if ph, isPhi := cond.(*ssa.Phi); isPhi && derived {
 			var cmp *ssa.BinOp
 			nT, nF, other := 0, 0, 0
 			for _, e := range ph.Edges {
@@ -179,6 +179,11 @@ func guardsOfRaw(fn *ssa.Function, derived bool) []guard {
 				g := guard{iff: iff, x: cmp.X, y: cmp.Y, op: cmp.Op, only: 1}
 				if nF > 0 {
 					g.only = 2
+				}
+				if neg {
+					// !(ctx && cmp) = !ctx || !cmp: the negated comparison is a disjunct; !(ctx || cmp): a conjunct
+					g.op = negateOp(g.op)
+					g.only = 3 - g.only
 				}
 				gs = append(gs, g)
 			}
@@ -257,12 +262,17 @@ func guardsOfRaw(fn *ssa.Function, derived bool) []guard {
 			// a new boolean helper used as the condition: `return a < u || b < c` - on the true edge one
 			// of the comparisons held; `return 1 <= d && d <= max` - on the false edge one of them failed.
 			// Operands are looked through to the arguments of the call. Only for obligations (rel).
-			if hp := x.Call.StaticCallee(); derived && hp != nil && !neg && theCtx.IsNew(hp) {
+			if hp := x.Call.StaticCallee(); derived && hp != nil && theCtx.IsNew(hp) {
 				ds, conj := predicateParts(hp)
 				for _, d := range ds {
 					g := guard{iff: iff, x: d.X, y: d.Y, op: d.Op, only: 1}
 					if conj {
 						g.only = 2
+					}
+					if neg {
+						// !(a && b) = !a || !b, !(a || b) = !a && !b
+						g.op = negateOp(g.op)
+						g.only = 3 - g.only
 					}
 					gs = append(gs, g)
 				}
